@@ -180,7 +180,14 @@ ExecSels(C, node, sels, path) ==
 EvalUnits(C, node, units, path, acc) ==
   IF units = <<>> THEN acc
   ELSE LET f == Head(units)
-           r == EvalField(C, node, f, path)
+           \* the n-th invocation of one resolver made to fail, <<node, field, "call", n>> (C06: "every single resolver
+           \* invocation"): ggql evaluates every occurrence of a response key, so one resolver can be invoked several times for
+           \* one position.  Counted over the invocations made so far for this selection set, which are all there are for
+           \* the operation root (the only node such faults are generated for: it is evaluated once per request).
+           n == Cardinality({j \in DOMAIN acc.calls : acc.calls[j].node = node /\ acc.calls[j].field = f.name})
+           CF == IF <<node, f.name, "call", ToString(n + 1)>> \in C.U.nth
+                 THEN [C EXCEPT !.U.data[node][f.name] = ErrV("injected")] ELSE C
+           r == EvalField(CF, node, f, path)
            d == IF r.val.k = "absent" THEN acc.val
                 ELSE IF Key(f) \in DOMAIN acc.val THEN Put(acc.val, Key(f), Merge(acc.val[Key(f)], r.val))
                 ELSE Put(acc.val, Key(f), r.val)
